@@ -449,6 +449,11 @@ func onProgram(p prog, input any, capPolls int) (res struct {
 		}
 	}
 	for k := 0; k <= limit; k++ {
+		if fetchEnabled && k%8 != 3 && k != 0 && k != limit {
+			// fetch-counting binary (slow: the debug trace formats the stack at every instruction): a sample
+			// of the cancellation points; its lines are not judged by the model, only its oracles count
+			continue
+		}
 		out, _ := runOnce(p.src, cloneVal(input), true, k, maxCalls)
 		fmt.Fprintf(&runs, " (%d%s)", k, fmtObs(out))
 		if runs.Len() > 60000 {
